@@ -139,4 +139,129 @@ Section Client.
         change (in_step t x) with (xeqb (now l') (now l)); rewrite Hx end.
       rewrite no_step_after; [cbn; lia | exact J1 | rewrite J2; exact K].
   Qed.
+
+  (** ** C20: whoever re-queues itself lets everything queued earlier run first *)
+
+  Lemma kexec_x_rv_mono n : forall st l i x,
+    inv l -> nth_error (kexec_x n st l) i = Some x -> rv_sub l (x_loop x).
+  Proof.
+    induction n as [|n IH]; cbn; intros st l i x Hinv Hn; [destruct i; discriminate|].
+    destruct (next l) as [[a l']|] eqn:E; [|destruct i; discriminate].
+    destruct (next_spec _ _ _ Hinv E) as (H1 & _). destruct (next_pending _ _ _ Hinv E) as (Hr & _).
+    destruct (client st l' a) as [st' ops] eqn:Ec.
+    destruct (kapply_all_inv ops l' H1) as (J1 & _).
+    destruct i as [|i]; cbn in Hn.
+    - inversion Hn; subst. cbn. unfold rv_sub. rewrite Hr. auto.
+    - specialize (IH _ _ _ _ J1 Hn). destruct (kapply_all_mono ops l') as [M _].
+      unfold rv_sub in *. rewrite <- Hr. auto.
+  Qed.
+
+  (** If [b] is queued and must run before [p] (earlier due time, or same due time and scheduled earlier),
+      then at the moment [p] executes, [b] has already executed -- unless [b] is revoked by then. *)
+  Theorem earlier_runs_first b p n : forall st l i x,
+    inv l -> In b (queued l) -> klt b p ->
+    nth_error (kexec_x n st l) i = Some x -> e_act (x_ev x) = p ->
+    is_revoked (revoked (x_loop x)) b = false ->
+    exists j y, j < i /\ nth_error (kexec_x n st l) j = Some y /\ e_act (x_ev y) = b.
+  Proof.
+    induction n as [|n IH]; cbn; intros st l i x Hinv Hb Hlt Hn Hp Hr; [destruct i; discriminate|].
+    destruct (next l) as [[a l']|] eqn:E; [|destruct i; discriminate].
+    destruct (next_spec _ _ _ Hinv E) as (H1 & _ & _ & _ & _ & _ & _ & H8).
+    destruct (next_pending _ _ _ Hinv E) as (Hrv & _).
+    pose proof (kexec_x_rv_mono (Datatypes.S n) st l i x Hinv) as Hm. cbn in Hm. rewrite E in Hm.
+    destruct (client st l' a) as [st' ops] eqn:Ec.
+    destruct (kapply_all_inv ops l' H1) as (J1 & _).
+    specialize (Hm Hn).
+    destruct (H8 _ Hb) as [Hx|[Hx|Hx]].
+    - rewrite (rv_sub_revoked _ _ _ Hm Hx) in Hr. discriminate.
+    - destruct i as [|i]; cbn in Hn.
+      + inversion Hn; subst x. cbn in Hp. subst. destruct (klt_irrefl _ Hlt).
+      + exists 0. eexists. split; [lia|]. split; [reflexivity|]. cbn. auto.
+    - destruct i as [|i]; cbn in Hn.
+      + inversion Hn; subst x. cbn in Hp, Hr. subst a. rewrite Hrv in Hr.
+        destruct (next_is_minimum _ _ _ Hinv E b Hb Hr) as [->|Hk].
+        * destruct (klt_irrefl _ Hlt).
+        * destruct (klt_irrefl _ (klt_trans _ _ _ Hlt Hk)).
+      + destruct (kapply_all_mono ops l') as [_ M].
+        destruct (IH _ _ _ _ J1 (M _ Hx) Hlt Hn Hp Hr) as (j & y & Hj & Hy & Hy').
+        exists (Datatypes.S j), y. split; [lia|]. split; auto.
+  Qed.
+
+  (** [postpone]: the activity asks for its own wake-up in the current time step ([KNow a s], the activation
+      gets the fresh sequence number [nseq l]); [ops] are its remaining requests before it hibernates.
+      In EVERY continuation, when that wake-up executes, every activation [b] that was already queued for
+      the current time has executed before it (or is revoked, i.e. withdrawn by its own waiter). *)
+  Theorem postpone_lets_others_run l a s ops n st i x b :
+    inv l -> In b (pending l) ->
+    nth_error (kexec_x n st (kapply_all (kapply l (KNow a s)) ops)) i = Some x ->
+    e_act (x_ev x) = {| a_tgt := a; a_sig := s; a_seq := nseq l; a_due := now l |} ->
+    is_revoked (revoked (x_loop x)) b = false ->
+    exists j y, j < i /\ nth_error (kexec_x n st (kapply_all (kapply l (KNow a s)) ops)) j = Some y /\
+                e_act (x_ev y) = b.
+  Proof.
+    intros Hinv Hb Hn Hp Hr.
+    destruct (kapply_inv l (KNow a s) Hinv) as (I1 & _). destruct (kapply_all_inv ops _ I1) as (I2 & _).
+    eapply earlier_runs_first; eauto.
+    - apply kapply_all_mono, kapply_mono. unfold queued. apply in_app_iff. auto.
+    - destruct Hinv as [[Hp0 _] _]. rewrite Forall_forall in Hp0. destruct (Hp0 _ Hb). right. cbn. auto.
+  Qed.
+
+  (** [suspend(delay=d)] / a Delay subscription: the wake-up executes at exactly now + d, a strictly later time *)
+  Theorem suspend_advances l d a s ops n st x :
+    inv l -> xpos d && xltb (now l) (xadd (now l) d) = true ->
+    In x (kexec_x n st (kapply_all (kapply l (KAfter d a s)) ops)) ->
+    e_act (x_ev x) = {| a_tgt := a; a_sig := s; a_seq := nseq l; a_due := xadd (now l) d |} ->
+    e_time (x_ev x) = xadd (now l) d /\ xlt (now l) (e_time (x_ev x)).
+  Proof.
+    intros Hinv Hd Hx Hp. apply andb_true_iff in Hd. destruct Hd as [_ Hd].
+    destruct (kapply_inv l (KAfter d a s) Hinv) as (I1 & _). destruct (kapply_all_inv ops _ I1) as (I2 & _).
+    destruct (kexec_x_time _ _ _ _ I2 Hx) as [H _]. rewrite Hp in H. cbn in H. rewrite H. auto.
+  Qed.
+
+  (** [suspend(until=t)] *)
+  Theorem suspend_until_advances l t a s ops n st x :
+    inv l -> xltb (now l) t = true ->
+    In x (kexec_x n st (kapply_all (kapply l (KAt t a s)) ops)) ->
+    e_act (x_ev x) = {| a_tgt := a; a_sig := s; a_seq := nseq l; a_due := t |} ->
+    e_time (x_ev x) = t /\ xlt (now l) (e_time (x_ev x)).
+  Proof.
+    intros Hinv Hd Hx Hp.
+    destruct (kapply_inv l (KAt t a s) Hinv) as (I1 & _). destruct (kapply_all_inv ops _ I1) as (I2 & _).
+    destruct (kexec_x_time _ _ _ _ I2 Hx) as [H _]. rewrite Hp in H. cbn in H. rewrite H. auto.
+  Qed.
+
+  (** ... hence everything that was queued for the current time ran before the suspended activity resumes *)
+  Theorem suspend_lets_others_run l o p ops n st i x b :
+    inv l -> In b (pending l) -> xlt (now l) (a_due p) ->
+    nth_error (kexec_x n st (kapply_all (kapply l o) ops)) i = Some x -> e_act (x_ev x) = p ->
+    is_revoked (revoked (x_loop x)) b = false ->
+    exists j y, j < i /\ nth_error (kexec_x n st (kapply_all (kapply l o) ops)) j = Some y /\ e_act (x_ev y) = b.
+  Proof.
+    intros Hinv Hb Hlt Hn Hp Hr.
+    destruct (kapply_inv l o Hinv) as (I1 & _). destruct (kapply_all_inv ops _ I1) as (I2 & _).
+    eapply earlier_runs_first; eauto.
+    - apply kapply_all_mono, kapply_mono. unfold queued. apply in_app_iff. auto.
+    - destruct Hinv as [[Hp0 _] _]. rewrite Forall_forall in Hp0. destruct (Hp0 _ Hb) as [Hd _]. left.
+      rewrite Hd. exact Hlt.
+  Qed.
 End Client.
+
+(** ** non-vacuity: three roots; root 0 postpones when it is started, root 1 suspends for 2 *)
+Definition demo_client (st : unit) (l : loop) (a : activation) : unit * list kop :=
+  match a_tgt a, a_sig a with
+  | 0, None => (tt, [KNow 0 (Some 7)])
+  | 1, None => (tt, [KAfter (Fin 2) 1 (Some 8)])
+  | _, _ => (tt, [])
+  end.
+
+Example demo_order :
+  map (fun x => (e_time (x_ev x), a_tgt (e_act (x_ev x)), a_sig (e_act (x_ev x))))
+      (kexec_x unit demo_client 10 tt (loop_init 3 (Fin 0)))
+  = [(Fin 0, 0, None); (Fin 0, 1, None); (Fin 0, 2, None); (Fin 0, 0, Some 7); (Fin 2, 1, Some 8)].
+Proof. vm_compute. reflexivity. Qed.
+
+Example demo_budget :
+  step_execs (Fin 0) (kexec_x unit demo_client 10 tt (loop_init 3 (Fin 0))) = 4 /\
+  length (pending (loop_init 3 (Fin 0))) = 3 /\
+  step_knows (Fin 0) (kexec_x unit demo_client 10 tt (loop_init 3 (Fin 0))) = 1.
+Proof. vm_compute. auto. Qed.
